@@ -213,6 +213,16 @@ func UFInverse(f, g string) {}
 func UFLeftInverse(f, g string) {}
 func UFCollisionFree(f string)    {}
 
+// RealZone: a zone of the tz database (engine: calendar operations on concrete instants in this zone use the real
+// time package)
+func RealZone(name string) *time.Location {
+	z, err := time.LoadLocation(name)
+	if err != nil {
+		panic(err)
+	}
+	return z
+}
+
 func FlatTime(name string) time.Time            { return time.Unix(0, num(name)).UTC() }
 // CivilTime: an arbitrary instant given by calendar fields (engine: civil-form symbolic time; natively built by time.Date)
 func CivilTime(name string, loc *time.Location) time.Time {
